@@ -271,6 +271,9 @@ def check(run):
         if thorough and i % 40 == 0:
             n = 1500
         cases.append(listing_case(rand_code(rng, plain, n), "random-defined"))
+    # long inputs: more than 4 KiB and more than 8 KiB of instructions (buffer management in the disassembler)
+    for n in ((1400, 3000) if not thorough else (1400, 3000, 9000)):
+        cases.append(listing_case(rand_code(rng, plain, n), "long-defined"))
     cases.append(listing_case([], "empty"))
     # 4. undefined opcodes, truncated tails, raw bytes
     for i in range(200 if thorough else 50):
